@@ -124,6 +124,17 @@ class Deadlock(Exception):
     pass
 
 
+class Timeout(BaseException):
+    pass
+
+
+def _on_alarm(signum, frame):  # pylint: disable=unused-argument
+    raise Timeout("the implementation did not finish within %d s" % IMPL_TIMEOUT)
+
+
+IMPL_TIMEOUT = 10
+
+
 _IMPL = {}
 
 
@@ -254,6 +265,10 @@ def run_impl(case, keep_root=False):
     kills = []
     cwd0 = os.getcwd()
     out = io.StringIO()
+    import signal as _signal
+
+    old_alarm = _signal.signal(_signal.SIGALRM, _on_alarm)
+    _signal.alarm(IMPL_TIMEOUT)
     try:
         patch(rte, "subprocess", Shim)
         patch(sigchld.SigchldHelper, "wait", fake_wait)
@@ -311,11 +326,15 @@ def run_impl(case, keep_root=False):
     except Deadlock as e:
         obs.deadlock = True
         obs.crash = "Deadlock: %s" % e
+    except Timeout as e:
+        obs.crash = "Timeout: %s" % e
     except BaseException as e:  # pylint: disable=broad-except
         import traceback
 
         obs.crash = "%s: %s\n%s" % (type(e).__name__, e, traceback.format_exc()[-1500:])
     finally:
+        _signal.alarm(0)
+        _signal.signal(_signal.SIGALRM, old_alarm)
         for (o, name), val in orig.items():
             setattr(o, name, val)
         os.chdir(cwd0)
